@@ -8,4 +8,6 @@ CONSTANTS
   Shifts = {0, 1}
   Mods = {"all", "first"}
   Probs = {"P1", "P2", "P3", "P4"}
+  Pads = {0}
+  Padfs = {0}
 CHECK_DEADLOCK FALSE
